@@ -1,6 +1,7 @@
 import PySMT.Core.DriverLib
 import PySMT.Spec.SmtlibText
 import PySMT.Impl.Printer
+import PySMT.Impl.PrinterHyp
 /-!
 Driver for C07 (texts travel as hex of their UTF-8 bytes, `_` = empty).
 
@@ -16,6 +17,7 @@ Driver for C07 (texts travel as hex of their UTF-8 bytes, `_` = empty).
           S oracle, independent of the printer model: the text is read with `readStd` in `envOf term`, its sort must be
           the term's, its value the term's under every interpretation given (those evaluating a division by zero skipped)
     runstd <hex script>                            → accepted <ncommands> | rejected <hex msg> | unreadable <hex msg>
+    printable <term>                               → yes|no ordered|unordered   (hypotheses of read_toSexp / print_sound in envOf term)
     chk_script <k> <interp>*k <term> <hex script>  → ok <compared> <skipped> | fail …
           accepted by `runStd`; the live assertions are exactly one term, with the term's value; every free symbol of the
           term is declared
@@ -95,18 +97,6 @@ def pReadStd : P String := do
     | .error e => return "err " ++ hx e
     | .ok (t, ty) => return "ok " ++ encTerm t ++ " : " ++ encTy ty
 
-/-- array values written as store chains over a constant array (what a reader of the printed text sees) -/
-def unfoldAV : Term → Term
-  | .node op args p =>
-    let as := args.map unfoldAV
-    match op, p, as with
-    | .arrayValue, .ty idx, d :: rest =>
-      let rec chain : Term → List Term → Term
-        | acc, k :: v :: more => chain (.node .arrayStore [acc, k, v] .none) more
-        | acc, _ => acc
-      chain (.node .arrayValue [d] (.ty idx)) rest
-    | _, _, _ => .node op as p
-
 def compareUnder (Is : List Interp) (t t' : Term) : String := Id.run do
   let mut compared := 0
   let mut skipped := 0
@@ -135,7 +125,7 @@ def pChkPrint : P String := do
       if some ty != t.typeOf then return s!"fail type {encOptTy t.typeOf} {encTy ty}"
       let r := compareUnder Is t t'
       if r.startsWith "ok" then
-        return r ++ (if t' == t then " exact" else if t' == unfoldAV t then " unfolded" else " other")
+        return r ++ (if t' == t then " exact" else if t' == Printer.unfoldAV t then " unfolded" else " other")
       else return r
 
 def pRunStd : P String := do
@@ -165,6 +155,11 @@ def pChkScript : P String := do
         | [t'] => return compareUnder Is t t'
         | l => return s!"fail assertions {l.length}"
 
+/-- does the term satisfy the hypotheses of `read_toSexp` in its own environment? -/
+def pPrintable : P String := do
+  let t ← term
+  return (if Printer.Printable (envOf "ALL" t) [] t then "yes" else "no") ++ (if Printer.avOrdered t then " ordered" else " unordered")
+
 def main : IO Unit := loop fun line =>
   let toks := Wire.tokens line
   match toks[0]? with
@@ -176,6 +171,7 @@ def main : IO Unit := loop fun line =>
   | some "chk_print" => handle pChkPrint toks
   | some "runstd" => handle pRunStd toks
   | some "chk_script" => handle pChkScript toks
+  | some "printable" => handle pPrintable toks
   | _ => match coreAnswer toks with
     | some a => a
     | none => "bad-op"
